@@ -39,6 +39,21 @@ delete by design); in the unidirectional kind children are never moved between p
 and a child that was in no collection at the last flush is not attached-and-detached
 (the unit of work cannot see it unless it happens to be dirty).
 
+Added after the second seeded-change round: kinds Z7 (one-to-one with a collection below
+the scalar target) and Z8 (many-to-one holder side, ``single_parent`` when delete-orphan,
+collection below the target); scenario PEND-REF (expire / refresh / expire_all while
+pending objects hang off persistent or pending members, autoflush off: pending targets
+are skipped by the refresh-expire cascade - they stay and are INSERTed - except through a
+delete-orphan relationship, where they are expunged; for every cascade setting);
+scenario PEND-ORPH (a pending value with 1-3 levels of pending descendants is removed
+from / replaced on / deleted from a collection, one-to-one or single-parent many-to-one
+delete-orphan relationship of a pending or persistent owner between two flushes: it is
+expunged together with exactly its expunge closure, everything else is INSERTed).  The
+older orphan scenarios (ORPH, ORPH-T, ORPH-D, PRE) are not run for the many-to-one
+delete-orphan kind (they assume the delete-orphan side holds the collection/scalar of
+children); transient replacement of a single-parent target is guarded like any other
+pre-session orphaning.
+
 Guards: operations are issued on the relationship that carries the cascade (SQLAlchemy
 2.x does not cascade through the backref side of an event); delete / expunge / expire /
 merge run on flushed, fully loaded graphs (non-delete cascades deliberately do not load
@@ -80,7 +95,7 @@ META = {
     "soft_s": {"quick": 60, "thorough": 900},
     "exhaustive": {"quick": True, "thorough": True},
     "require": ["configs", "su_checks", "del_checks", "orphan_checks", "exp_checks", "ref_checks", "mrg_checks",
-                "nontrivial_closures", "rows_compared"],
+                "nontrivial_closures", "rows_compared", "pending_ref_checks", "pending_orphan_checks"],
     "assumptions": ["the shadow graph (<100 lines) mirrors link/unlink semantics of o2m/m2o/m2m/o2o pairs"],
 }
 
@@ -204,6 +219,23 @@ class Shadow:
         visit(start, None)
         return set(seen)
 
+    def refresh_closure(self, start, pending):
+        """refresh-expire cascade: a *pending* target is skipped (neither yielded nor
+        traversed) unless the relationship is delete-orphan."""
+        seen = [start]
+        stack = [start]
+        while stack:
+            n = stack.pop()
+            for r in self.by_cls.get(self.cls_of[n], ()):
+                if "refresh-expire" not in r.cascade:
+                    continue
+                for t in self.targets(n, r):
+                    if t in seen or (t in pending and not r.orphan):
+                        continue
+                    seen.append(t)
+                    stack.append(t)
+        return set(seen)
+
     def ancestors(self, n, up_attr):
         out = []
         cur = self.val.get((n, up_attr))
@@ -244,13 +276,18 @@ def all_configs():
                (("save-update", "merge"), False), (("save-update", "merge", "refresh-expire", "expunge"), False)]
     backs = [(), ("save-update", "merge")]
     n = 0
-    for kind in ("Z1", "Z2", "Z3", "Z5", "Z6"):
+    for kind in ("Z1", "Z2", "Z3", "Z5", "Z6", "Z7", "Z8"):
         for s, orphan in subsets:
             if kind == "Z3" and orphan:
                 continue
             for back in backs:
                 n += 1
-                if kind == "Z6":
+                if kind in ("Z7", "Z8"):
+                    if bool(back) != bool(n // 2 % 2):
+                        continue  # one of the two reverse settings per subset, alternating
+                    sec, sec_o = seconds[n % len(seconds)]
+                    yield Config(kind, s, orphan, back, sec, sec_o)
+                elif kind == "Z6":
                     if back:
                         continue  # no reverse side at all
                     sec, sec_o = seconds[n % len(seconds)]
@@ -277,6 +314,8 @@ class World:
         self.reg.metadata.create_all(self.eng)
         self.orphan_rels = [r for r in self.rels if r.orphan]
         self.real_rels = [r for r in self.rels if not r.virtual]
+        # the older orphan scenarios assume the delete-orphan side holds the child
+        self.m2o_orphan = any(r.orphan and r.shape == "m2o" for r in self.rels)
         self.serial = 0
         self.dirty_db = False
         self.reset()
@@ -315,6 +354,10 @@ class World:
             return False
         if rev.virtual and sh.val[(y, rev.attr)] not in (None, x):
             return False  # unidirectional: nothing would take the child out of the other list
+        if rel.shape == "m2o" and rel.orphan and any(h != x for h in sh.val[(y, rev.attr)]):
+            return False  # single_parent: the target may have one holder only
+        if rev.shape == "m2o" and rev.orphan and any(h != y for h in sh.val[(x, rel.attr)]):
+            return False
         if rel.shape == "o2o":
             h = sh.val[(y, rev.attr)]
             if h is not None and h != x:
@@ -384,6 +427,12 @@ class World:
     def is_move_of_orphan_tracked(self, x, rel, y):
         """linking would take a child away from its current delete-orphan parent"""
         rev = self.sh.rev(rel)
+        if rel.shape == "m2o" and rel.orphan:
+            cur = self.sh.val[(x, rel.attr)]  # replacing the holder's target orphans it
+            return cur is not None and cur != y
+        if rev.shape == "m2o" and rev.orphan:
+            cur = self.sh.val[(y, rev.attr)]
+            return cur is not None and cur != x
         o2m, child = (rel, y) if rel.shape in ("o2m", "o2o") else (rev, x)
         if not o2m.orphan:
             return False
@@ -844,6 +893,173 @@ def scenario_pre_orphan(w, rng):
     ctx.case({"cfg": w.cfg.desc(), "sc": "PRE", "hist": hist}, nontrivial=True)
 
 
+def _drop_fresh(w, n):
+    w.sh.remove_node(n)
+    del w.obj[n]
+
+
+def scenario_pending_ref(w, rng):
+    """expire() / refresh() / expire_all() while PENDING objects hang off persistent (or
+    other pending) members: the refresh-expire cascade expires the persistent objects it
+    reaches, skips pending ones - they stay in the session and are INSERTed - except
+    through a delete-orphan relationship, where the pending object is expunged
+    (documented: it would be an orphan once the parent's attributes are gone)."""
+    from sqlalchemy import inspect, orm
+
+    ctx = w.ctx
+    w.reset()
+    names = w.random_graph(rng)
+    hist = []
+    with orm.Session(w.eng, expire_on_commit=False, autoflush=False) as sess:
+        persist_all(w, sess, names)
+        w.load_all()
+        persistent, pending = set(names), set()
+        for _ in range(rng.randint(1, 3)):
+            x = rng.choice(sorted(persistent | pending))
+            rels = [r for r in w.sh.by_cls.get(w.sh.cls_of[x], ()) if not r.virtual]
+            if not rels:
+                continue
+            rel = rng.choice(rels)
+            y = w.new(rel.target)
+            if not w.can_link(x, rel, y) or w.is_move_of_orphan_tracked(x, rel, y):
+                _drop_fresh(w, y)
+                continue
+            w.link(x, rel, y)
+            sess.add(w.obj[y])  # explicit: pending whatever the cascade says
+            pending.add(y)
+            hist.append(["attach-pending", x, rel.attr, y])
+        if not pending:
+            sess.rollback()
+            return
+        how = rng.choice(["expire", "expire", "refresh", "expire_all"])
+        x = rng.choice(sorted(persistent))
+        hist.append([how, x])
+        if how == "expire_all":
+            want_expired, want_out = set(persistent), set()
+            sess.expire_all()
+        else:
+            closure = w.sh.refresh_closure(x, pending)
+            want_out = closure & pending
+            want_expired = (closure & persistent) - ({x} if how == "refresh" else set())
+            getattr(sess, how)(w.obj[x])
+        ctx.count("ref_checks")
+        ctx.count("pending_ref_checks")
+        got_in = w.in_session(sess)
+        got_expired = {n for n in persistent if inspect(w.obj[n]).expired}
+        want_in = (persistent | pending) - want_out
+        if got_in != want_in or got_expired != want_expired:
+            dropped = sorted((want_in - got_in) & pending)
+            # (expire and refresh share the cascade: one mechanism, the call is in the witness)
+            mech = "refresh-expire-cascade-drops-pending" if dropped else "refresh-expire-cascade-with-pending"
+            violation(w, "PEND-REF", mech,
+                      "after %s: session %s expected %s; expired %s expected %s" % (
+                          hist, sorted(got_in), sorted(want_in), sorted(got_expired), sorted(want_expired)),
+                      {"history": hist, "pending": sorted(pending), "session": sorted(got_in), "expected": sorted(want_in)})
+        else:
+            sess.flush()
+            rows = w.table_names(sess)
+            if rows != want_in:
+                violation(w, "PEND-REF", "refresh-expire-cascade-pending-not-inserted",
+                          "after %s + flush: rows %s, expected %s" % (hist, sorted(rows), sorted(want_in)),
+                          {"history": hist, "rows": sorted(rows), "expected": sorted(want_in)})
+            if want_out or len(want_expired) > 1:
+                ctx.count("nontrivial_closures")
+        sess.rollback()
+    ctx.case({"cfg": w.cfg.desc(), "sc": "PEND-REF", "hist": hist, "g": w.sh.describe()}, nontrivial=True)
+
+
+def scenario_pending_orphan(w, rng):
+    """a PENDING value with 1-3 levels of pending descendants is removed from / replaced on
+    a delete-orphan relationship (collection, one-to-one or single-parent many-to-one) of
+    an object that is in a session, between two flushes: the pending orphan is expunged
+    (documented) together with exactly what its expunge cascade reaches; the rest stays
+    pending and is INSERTed."""
+    from sqlalchemy import orm
+
+    ctx = w.ctx
+    rel = rng.choice(w.orphan_rels)
+    w.reset()
+    hist = []
+    with orm.Session(w.eng, expire_on_commit=False) as sess:
+        x = w.new(rel.cls)
+        sess.add(w.obj[x])
+        if rng.random() < 0.5:
+            sess.flush()
+            hist.append(["flush-owner", x])
+        y = w.new(rel.target)
+        subtree, frontier = [y], [y]
+        for level in range(rng.randint(1, 2)):
+            nxt = []
+            for n in frontier:
+                fwd = [r for r in w.sh.by_cls.get(w.sh.cls_of[n], ()) if not r.virtual
+                       and r.shape in ("o2m", "o2o", "m2m") and not (r is w.sh.rev(rel))]
+                for r in fwd:
+                    for _ in range(rng.randint(1, 2) if r.collection else 1):
+                        z = w.new(r.target)
+                        if w.can_link(n, r, z):
+                            w.link(n, r, z)
+                            nxt.append(z)
+                            subtree.append(z)
+                        else:
+                            _drop_fresh(w, z)
+            frontier = nxt
+        if not w.can_link(x, rel, y):
+            sess.rollback()
+            return
+        w.link(x, rel, y)
+        sess.add_all([w.obj[n] for n in subtree])
+        hist.append(["attach-pending-subtree", x, rel.attr, subtree])
+        members = w.in_session(sess)
+        how = rng.choice(["remove", "replace", "replace-new", "del"])
+        joined = set()
+        if how == "remove":
+            w.unlink(x, rel, y)
+        elif how == "del":
+            delattr(w.obj[x], rel.attr)
+            w.sh.unlink(x, rel, y)
+        else:
+            y2 = None
+            if how == "replace-new":
+                y2 = w.new(rel.target)
+            if rel.collection:
+                setattr(w.obj[x], rel.attr, [w.obj[y2]] if y2 else [])
+                w.sh.unlink(x, rel, y)
+                if y2:
+                    w.sh.link(x, rel, y2)
+            else:
+                setattr(w.obj[x], rel.attr, w.obj[y2] if y2 else None)
+                w.sh.unlink(x, rel, y)
+                if y2:
+                    w.sh.link(x, rel, y2)
+            if y2 and "save-update" in rel.cascade:
+                joined.add(y2)
+        hist.append([how, x, rel.attr, y])
+        out = w.sh.closure(y, "expunge") & members
+        want = (members - out) | joined
+        got = w.in_session(sess)
+        ctx.count("pending_orphan_checks")
+        if got != want:
+            stay = sorted(got - want)
+            site = "collection" if rel.collection else "scalar"  # remove listener / set listener
+            mech = "pending-orphan-%s-expunge-cascade-not-applied" % site if stay and not (want - got) \
+                else "pending-orphan-%s-expunge-cascade" % site
+            violation(w, "PEND-ORPH", mech,
+                      "after %s: session %s, expected %s (expunge closure of the orphan %s)" % (
+                          hist, sorted(got), sorted(want), sorted(out)),
+                      {"history": hist, "session": sorted(got), "expected": sorted(want)})
+        else:
+            sess.flush()
+            rows = w.table_names(sess)
+            if rows != want:
+                violation(w, "PEND-ORPH", "pending-orphan-flush-rows",
+                          "after %s + flush: rows %s, expected %s" % (hist, sorted(rows), sorted(want)),
+                          {"history": hist, "rows": sorted(rows), "expected": sorted(want)})
+            if len(out) > 1:
+                ctx.count("nontrivial_closures")
+        sess.rollback()
+    ctx.case({"cfg": w.cfg.desc(), "sc": "PEND-ORPH", "hist": hist, "g": w.sh.describe()}, nontrivial=len(subtree) > 1)
+
+
 def scenario_exp(w, rng):
     from sqlalchemy import orm
 
@@ -964,13 +1180,17 @@ def run(ctx):
         for rep in range(reps):
             scenario_su(w, rng)
             scenario_del(w, rng)
-            if w.orphan_rels:
+            if w.orphan_rels and not w.m2o_orphan:
                 for _ in range(3):
                     scenario_orph(w, rng)
                 scenario_pre_orphan(w, rng)
                 if rep == 0:
                     scenario_orph_targeted(w)
                     scenario_orph_delete_parent(w)
+            scenario_pending_ref(w, rng)
+            if w.orphan_rels:
+                for _ in range(2):
+                    scenario_pending_orphan(w, rng)
             scenario_exp(w, rng)
             scenario_ref(w, rng)
             scenario_mrg(w, rng)
